@@ -806,6 +806,9 @@ fn sc_many_farms_exact_thirds_long_farm(t: &mut Tracer) {
     w.claim(&c, None, &[]);
     w.claim(&d, None, &[]);
     w.pos_withdraw(&d, "u-d1", Some(true), &[]); // penalty shared among the owners of 12 farms
+    // on the other LP token a farm runs whose end nobody can compute: it is a live farm, its owner shares the penalty
+    w.pos_create(&d, Some("d2".into()), 30 * DAY, None, &[coin(1_000_000, lp2.clone())]);
+    w.pos_withdraw(&d, "u-d2", Some(true), &[]);
     w.advance(DAY);
     w.advance(DAY);
     w.claim(&b, None, &[]);
